@@ -35,6 +35,12 @@ def directed(mc):
             h(mode, "rgb8", alloc, 0, 0, "dflt 0 0 0", "rec 0 5 0 0 1", "copy 1 0")
             h(mode, "rgb8", alloc, 0, 0, "dflt 0 0 0", "rec 0 0 5 0 1", "dims 1 0 0 2 2 3", "assign 1 0")
     for alloc in ALLOCS:
+        # move assignment into a NON-EMPTY target between unequal allocator instances, every allocator kind (propagating: the target's old
+        # block must be released through the target's own allocator before the source's allocator is adopted), also chained and with an empty source
+        for org in ("rgb8", "elem", "gray1"):
+            h("dbg", org, alloc, 0, 0, "dims 0 1 0 3 2 1", "dims 1 2 0 4 4 1", "massign 0 1", "write 0 1 1 0", "dims 2 0 8 2 2 1", "massign 2 0", "massign 1 2", "destroy 1")
+            h("dbg", org, alloc, 0, 0, "dims 0 2 4 5 3 1", "dflt 1 1 0", "massign 0 1", "dims 2 0 0 1 1 0", "massign 1 2", "massign 2 0")
+            h("dbg", org, alloc, 0, 0, "dims 0 1 0 3 2 1", "dims 1 2 0 4 4 0", "move 2 1", "massign 0 2", "massign 2 0", "swap 0 0")
         # alignment recorded before a throwing allocation, then recreate(same dims, that alignment) returns early
         h("dbg", "rgb8", alloc, 2, 0, "dims 0 0 0 3 2 7", "rec 0 8 8 16 3", "rec 0 3 2 16 3")
         h("dbg", "gray16", alloc, 2, 0, "fill 0 0 0 3 3 7", "recf 0 8 8 4 32", "recf 0 3 3 4 32")
@@ -58,9 +64,9 @@ def gen_history(r, mc, thorough):
     mode = "rel" if (alloc in ("sf00", "pmr") and r.chance(1, 4)) else "dbg"
     org = r.choice(ORGS)
     vmax = VMAX[org]
-    policy = r.below(10)           # 0..5: every allocator tag 0; 6,7: one non-default tag; 8,9: random tags
+    policy = r.below(10)           # 0..4: every allocator tag 0; 5,6: one non-default tag; 7..9: random tags (unequal instances meet)
     t0 = r.range(1, 2)
-    def tag(): return 0 if policy < 6 else (t0 if policy < 8 else r.below(3))
+    def tag(): return 0 if policy < 5 else (t0 if policy < 7 else r.below(3))
     occ, tags = {}, {}             # slot -> approximate (w,h); slot -> tag (approximate)
     nslots = 6 if org in PARTNER else 4
     ops = []
@@ -101,9 +107,9 @@ def gen_history(r, mc, thorough):
             elif kind < 7 or not fillok: ops.append("reca %d %d %d %d %d %d" % (s, dim(), dim(), al(), tag(), v()))
             else: ops.append("recfa %d %d %d %d %d %d" % (s, dim(), dim(), v(), al(), tag()))
         elif k < 55: ops.append("assign %d %d" % (s, r.choice(same)))
-        elif k < 60 and other: ops.append("cassign %d %d" % (s, r.choice(other)))
-        elif k < 70: ops.append("massign %d %d" % (s, r.choice(same)))
-        elif k < 76 and (alloc in POCS or alloc == "se" or policy < 8): ops.append("swap %d %d" % (s, r.choice(same)))
+        elif k < 58 and other: ops.append("cassign %d %d" % (s, r.choice(other)))
+        elif k < 72: ops.append("massign %d %d" % (s, r.choice(same)))
+        elif k < 76 and (alloc in POCS or alloc == "se" or policy < 7): ops.append("swap %d %d" % (s, r.choice(same)))
         elif k < 90: ops.append("write %d %d %d %d" % (s, r.below(8), r.below(8), v()))
         else: ops.append("destroy %d" % s); del occ[s]
     return "h %s %s %s 0 0 %d | %s" % (mode, org, alloc, mc, " | ".join(ops))
